@@ -25,7 +25,7 @@ func H_C13_probe_ops() {
 }
 func H_C13_ivf_t()    { hC13(cfgC13{nlist: 2, n: 2, dim: 1, symVecs: true, symK: true, symProbes: true, filter: true}) }
 func H_C13_ivf_t_th() { hC13(cfgC13{nlist: 2, n: 2, dim: 1, symVecs: true, symTh: true, probes: []int{1, 0}}) }
-func H_C13_ivf_t3() { hC13(cfgC13{nlist: 3, n: 3, dim: 1, symVecs: true, symK: true, probes: []int{1, 2, 3}}) }
+func H_C13_ivf_t3() { hC13(cfgC13{nlist: 3, n: 2, dim: 1, symVecs: true, symK: true, probes: []int{1, 2, 3}}) }
 func H_C13_ivf_d2() { hC13(cfgC13{nlist: 2, n: 2, dim: 2, symVecs: true, symK: true, symProbes: true}) }
 
 type cfgC13 struct {
